@@ -33,12 +33,12 @@ pub open spec fn spec_trim_suffix(s: Seq<char>, t: Seq<char>) -> Seq<char> { if 
 
 //@ item str_size file=src/core/string.rs block="impl StringExt for str" fn=size
 //@ rw R2 + re⟦\bself\b⟧ => ⟦this⟧
-//@ rw R4 1 ⟦this.chars().count()⟧ => ⟦this.chars_count()⟧
+//@ rw R4 + re⟦this\.(chars|bytes|encode_utf16)\(\)\.count\(\)⟧ => ⟦this.\1_count()⟧
 pub fn str_size(this: &Str) -> (n: usize) ensures n == this@.len()     //@ clause size.is_number_of_characters [C19]
 //@ body
 //@ item string_size file=src/core/string.rs block="impl StringExt for String" fn=size
 //@ rw R2 + re⟦\bself\b⟧ => ⟦this⟧
-//@ rw R4 1 ⟦this.chars().count()⟧ => ⟦this.chars_count()⟧
+//@ rw R4 + re⟦this\.(chars|bytes|encode_utf16)\(\)\.count\(\)⟧ => ⟦this.\1_count()⟧
 pub fn string_size(this: &Str) -> (n: usize) ensures n == this@.len()     //@ clause size.is_number_of_characters [C19]
 //@ body
 
